@@ -29,18 +29,21 @@ FOREIGN = 5                      # another device's address
 
 
 def configs(tier):
-    cs = [dict(mps=2, gap=1, ready=1),
-          dict(mps=3, gap=2, ready=2),
-          dict(mps=4, gap=1, ready=1, masks="sparse"),
-          dict(mps=1, gap=3, ready=3),
-          dict(mps=2, gap=2, ready=1, distract=1, masks="sparse")]
-    if tier == "thorough":
-        cs += [dict(mps=4, gap=2, ready=2),
-               dict(mps=3, gap=1, ready=1, distract=1),
-               dict(mps=3, gap=5, ready=4, pace=2, frames=2),
-               dict(mps=2, gap=1, ready=5, pace=3, idle=1),
-               dict(mps=5, gap=1, ready=1, masks="sparse")]
-    return cs
+    if tier == "quick":
+        return [dict(mps=2, gap=1, ready=1),
+                dict(mps=3, gap=2, ready=2, depth=7),
+                dict(mps=4, gap=1, ready=1, masks="sparse", depth=6),
+                dict(mps=1, gap=3, ready=3),
+                dict(mps=2, gap=2, ready=1, distract=1, masks="sparse", depth=5)]
+    return [dict(mps=2, gap=1, ready=1),
+            dict(mps=3, gap=2, ready=2),
+            dict(mps=4, gap=1, ready=1),
+            dict(mps=1, gap=3, ready=3),
+            dict(mps=2, gap=2, ready=1, distract=1, depth=8),
+            dict(mps=3, gap=1, ready=1, distract=1, masks="sparse", depth=7),
+            dict(mps=3, gap=5, ready=4, pace=2, frames=2),
+            dict(mps=2, gap=1, ready=5, pace=3, idle=1),
+            dict(mps=5, gap=1, ready=1, masks="sparse")]
 
 
 class IsoInSpec(Spec):
@@ -52,7 +55,8 @@ class IsoInSpec(Spec):
         self.mps = cfg["mps"]
         self.nmax = 3 * self.mps
         self.distract = bool(cfg.get("distract"))
-        self.time_budget = 40 if tier == "quick" else 800
+        self.time_budget = 60 if tier == "quick" else 850
+        if cfg.get("depth"): self.max_depth = cfg["depth"]
         self.host = Host(gap=cfg["gap"], pace=cfg.get("pace", 1), ready_period=cfg["ready"])
         self.frames = (0x2A5, 0x15A)[:cfg.get("frames", 1)]
         self.sparse = cfg.get("masks") == "sparse"
@@ -119,7 +123,8 @@ class IsoInSpec(Spec):
 
     def goals(self):
         g = ["frame:1-packet", "frame:2-packets", "frame:3-packets", "frame:empty", "zlp:empty-frame", "zlp:after-data", "zlp:before-first-sof",
-             "slot:zero-fill", "slot:data", "frame:abandoned", "frame:complete", "packet:short", "packet:full"]
+             "slot:zero-fill", "slot:data", "frame:abandoned", "frame:complete", "packet:full"]
+        if self.mps > 1: g.append("packet:short")
         if self.distract: g += ["distract:bulk-ack", "distract:foreign", "distract:out"]
         return g
 
